@@ -16,6 +16,9 @@ func main() {
 		os.Exit(2)
 	}
 	prop := os.Args[1]
+	if prop == "c19worker" && len(os.Args) > 2 {
+		os.Exit(c19Worker(os.Args[2]))
+	}
 	tier := os.Getenv("VERIF_TIER")
 	replay := ""
 	for i := 2; i < len(os.Args); i++ {
